@@ -11,6 +11,8 @@ Tie:  T  harness/facts_astar.py regenerates Gen/AStarFacts.lean (heuristic / ste
               path raster must be identical, NaN pattern and values bit for bit;
            Q  the model executed over exact costs a + b*sqrt2 with heuristic 0 (Dijkstra): all-NaN
               must coincide and the goal's value must be a + b*sqrt2.
+      histories: several searches in a row on rasters derived from one another by attrs-preserving xarray operations
+         (stream `derived`): each must be what a search on a fresh raster with the same data and coordinates gives.
 Oracle (independent of the model, from the property text): nearest centre in exact rational
 arithmetic on the actual float coordinates, nearest crossable cell by squared distance, and an
 exact Dijkstra (costs as integer pairs (a, b)) for reachability and the minimum.
@@ -164,6 +166,11 @@ def guarded_search(cases):
     """real_search for every case, computed in a forked child: numba's nopython loops cannot be
     interrupted, so a call that does not return within HANG_S seconds is killed and reported as
     ('hang', None); after MAX_HANGS hangs the remaining cases get ('skipped', None)"""
+    return guarded_map(real_search, cases)
+
+
+def guarded_map(fn, cases):
+    """fn(case) for every case in a forked child (see guarded_search); fn returns a picklable (status, payload)"""
     import pickle
     import signal
     import struct
@@ -182,7 +189,7 @@ def guarded_search(cases):
                 os.close(rfd)
                 for c in cases[start:]:
                     try:
-                        res = real_search(c)
+                        res = fn(c)
                     except Exception as ex:          # noqa: BLE001  (reported, not swallowed)
                         res = ("err:" + type(ex).__name__, None)
                     blob = pickle.dumps(res)
@@ -353,9 +360,11 @@ def check_path(out, cross, conn, S, G, best=None):
     return None
 
 
-def oracle_search(case, status, out):
-    """property oracle on the public function; returns (key, text) or None"""
-    ras = make_raster(case)
+def oracle_search(case, status, out, ras=None):
+    """property oracle on the public function; returns (key, text) or None.  `ras`: the raster that was searched when
+    it is not the freshly built `make_raster(case)` (a raster derived by xarray operations: its own coordinates count)"""
+    if ras is None:
+        ras = make_raster(case)
     data = np.asarray(ras.data)
     h, w = data.shape
     cross = crossable_exact(case)
@@ -963,7 +972,14 @@ def exhaustive_cases(shapes, sample=None, rng=None):
                         yield unit_case(data, conn, s, g)
 
 
-def compare_search(r, stream, case, status, out, rep):
+def compare_search(r, stream, case, status, out, rep, report=None):
+    """`report`: the case to record with a disagreement (a history) when `case` is only its equivalent fresh search"""
+    if report is not None:
+        class _R:          # record the history, compute with the equivalent case
+            @staticmethod
+            def disagree(stream_, _case, real, model):
+                r.disagree(stream_, report, real, model)
+        return compare_search(_R, stream, case, status, out, rep)
     mstatus, d = parse_reply(rep)
     h, w = len(data_rows(case)), len(data_rows(case)[0])
     if status != "ok" or mstatus != "ok":
@@ -1036,6 +1052,392 @@ def run_searches(r, stream, cases, tags_of=None):
         compare_search(r, stream, c, status, out, rep)
 
 
+# ---------------------------------------------------------------- stream: histories
+# Several searches in a row on rasters *derived from one another* by attrs-preserving xarray operations.  Every search is
+# judged by the same independent oracle as a search on a fresh raster, from the derived raster's own coordinates: a
+# search must not depend on what was searched before (state kept on the caller's objects, e.g. something remembered in
+# `attrs` that xarray carries through slicing / assign_coords / copy, is what this stream is after).
+SCALES = ["30", "2", "1/2", "1000", "-1", "3", "1/4", "-30"]
+SHIFTS = ["1000", "-1/2", "500000", "-73/10", "1/4", "-3"]
+
+
+def geo_of(base):
+    """symbolic description of a raster: which rows / columns of the base data it holds, exact origin and step per axis"""
+    rows = data_rows(base)
+    return dict(rows=list(range(len(rows))), cols=list(range(len(rows[0]))), y0=F(base["y0"]), ystep=F(base["ystep"]),
+                x0=F(base["x0"]), xstep=F(base["xstep"]))
+
+
+def derive_geo(g, op):
+    """the description of the raster the operation yields; None when it is not applicable (fewer than two rows / columns)"""
+    g = dict(g)
+    k = op["op"]
+    if k == "stride":
+        for ax, c0, st, idx in (("y", "y0", "ystep", "rows"), ("x", "x0", "xstep", "cols")):
+            sl = slice(*op[ax])
+            sel = g[idx][sl]
+            if len(sel) < 2:
+                return None
+            first = range(len(g[idx]))[sl][0]
+            g[c0] = g[c0] + first * g[st]
+            g[st] = g[st] * (sl.step or 1)
+            g[idx] = sel
+    elif k == "scale":
+        g["y0"], g["ystep"] = g["y0"] * F(op["y"]), g["ystep"] * F(op["y"])
+        g["x0"], g["xstep"] = g["x0"] * F(op["x"]), g["xstep"] * F(op["x"])
+    elif k == "shift":
+        g["y0"], g["x0"] = g["y0"] + F(op["y"]), g["x0"] + F(op["x"])
+    elif k not in ("transpose2", "copy", "like-result"):
+        raise ValueError(k)
+    return g
+
+
+def op_text(op):
+    k = op["op"]
+    if k == "stride":
+        def sl(t):
+            lo, hi, st = t
+            return f"{'' if lo is None else lo}:{'' if hi is None else hi}" + ("" if st in (None, 1) else f":{st}")
+        if op["via"] == "getitem":
+            return f"[{sl(op['y'])}, {sl(op['x'])}]"
+        return f".isel(y=slice{tuple(op['y'])}, x=slice{tuple(op['x'])})"
+    if k == "scale":
+        return f".assign_coords(y=y*{op['y']}, x=x*{op['x']})"
+    if k == "shift":
+        return f".assign_coords(y=y+{op['y']}, x=x+{op['x']})"
+    if k == "transpose2":
+        return ".transpose('x','y').transpose('y','x')"
+    if k == "copy":
+        return f".copy(deep={op['deep']})"
+    if k == "like-result":
+        return " -> DataArray(its data, coords/dims/attrs of the last result)"
+    if k == "back":
+        return f" <back to raster #{op['to']}>"
+    return "?"
+
+
+def apply_op(ras, op, geo2, last_out, res):
+    """the xarray operation itself; a caller who supplied `res` keeps it equal to the spacing (assign_attrs)"""
+    k = op["op"]
+    if k == "stride":
+        sy, sx = slice(*op["y"]), slice(*op["x"])
+        new = ras[sy, sx] if op["via"] == "getitem" else ras.isel(y=sy, x=sx)
+    elif k == "scale":
+        co = {}
+        if F(op["y"]) != 1:
+            co["y"] = ras["y"] * float(F(op["y"]))
+        if F(op["x"]) != 1:
+            co["x"] = ras["x"] * float(F(op["x"]))
+        new = ras.assign_coords(**co)
+    elif k == "shift":
+        co = {}
+        if F(op["y"]) != 0:
+            co["y"] = ras["y"] + float(F(op["y"]))
+        if F(op["x"]) != 0:
+            co["x"] = ras["x"] + float(F(op["x"]))
+        new = ras.assign_coords(**co)
+    elif k == "transpose2":
+        new = ras.transpose("x", "y").transpose("y", "x")
+    elif k == "copy":
+        new = ras.copy(deep=bool(op["deep"]))
+    elif k == "like-result":
+        if last_out is None:
+            new = ras.copy(deep=False)
+        else:
+            new = xr.DataArray(ras.data, coords=last_out.coords, dims=last_out.dims, attrs=last_out.attrs)
+    else:
+        raise ValueError(k)
+    if res and k in ("stride", "scale"):
+        new = new.assign_attrs(res=(float(abs(geo2["xstep"])), float(abs(geo2["ystep"]))))
+    return new
+
+
+def eq_case(base, geo, st):
+    """the search of a history step as a search on a freshly built raster (same data, same exact coordinates)"""
+    rows = data_rows(base)
+    c = dict(kind="search", data=[[rows[i][j] for j in geo["cols"]] for i in geo["rows"]], barriers=list(base["barriers"]),
+             conn=st["conn"], y0=ftok(geo["y0"]), ystep=ftok(geo["ystep"]), x0=ftok(geo["x0"]), xstep=ftok(geo["xstep"]),
+             sy=ftok(geo["y0"] + (st["s"][0] + F(st["sfr"][0])) * geo["ystep"]),
+             sx=ftok(geo["x0"] + (st["s"][1] + F(st["sfr"][1])) * geo["xstep"]),
+             gy=ftok(geo["y0"] + (st["g"][0] + F(st["gfr"][0])) * geo["ystep"]),
+             gx=ftok(geo["x0"] + (st["g"][1] + F(st["gfr"][1])) * geo["xstep"]),
+             snaps=int(st["snaps"]), snapg=int(st["snapg"]), res=bool(base.get("res")))
+    if "bar" in base:
+        c["bar"] = list(base["bar"])
+    return c
+
+
+def walk_history(case):
+    """symbolic run: yields (step, geo of the raster it applies to, geo after it) -- raises ValueError when the history is
+    not well formed (an operation that leaves fewer than 2 rows, a cell outside the raster, an unknown raster)"""
+    stack = [geo_of(case["base"])]
+    cur = 0
+    for st in case["steps"]:
+        g = stack[cur]
+        if st["op"] == "search":
+            h, w = len(g["rows"]), len(g["cols"])
+            if not (0 <= st["s"][0] < h and 0 <= st["g"][0] < h and 0 <= st["s"][1] < w and 0 <= st["g"][1] < w):
+                raise ValueError("cell outside the derived raster")
+            yield st, g, g
+        elif st["op"] == "back":
+            if not 0 <= st["to"] < len(stack):
+                raise ValueError("unknown raster")
+            cur = st["to"]
+            yield st, g, stack[cur]
+        else:
+            g2 = derive_geo(g, st)
+            if g2 is None:
+                raise ValueError("not applicable")
+            stack.append(g2)
+            cur = len(stack) - 1
+            yield st, g, g2
+
+
+def real_history(case):
+    """run the whole history on the real code in this process and judge every search with the oracle, on the raster that
+    was searched.  -> ('ok', [dict(status, out, bad, notes, eq, path)])"""
+    import copy
+    from xrspatial import a_star_search
+    base = case["base"]
+    stack = [[_make_raster(base), None, "surface"]]          # raster, last result on it, how it was made
+    cur = 0
+    supplied = dict(stack[0][0].attrs)
+    results = []
+    for st, g, g2 in walk_history(case):
+        ras, last, how = stack[cur]
+        if st["op"] == "back":
+            cur = st["to"]
+            continue
+        if st["op"] != "search":
+            new = apply_op(ras, st, g2, last, bool(base.get("res")))
+            stack.append([new, None, how + op_text(st)])
+            cur = len(stack) - 1
+            continue
+        eq = eq_case(base, g, st)
+        notes = []
+        attrs0 = copy.deepcopy(dict(ras.attrs))
+        if set(attrs0) != set(supplied):
+            notes.append(f"the raster carries attrs the caller never supplied: {attrs0} (supplied: {sorted(supplied)})")
+        ys0, xs0 = np.array(ras["y"].data, copy=True), np.array(ras["x"].data, copy=True)
+        data0 = np.array(ras.data, copy=True)
+        start = (float(F(eq["sy"])), float(F(eq["sx"])))
+        goal = (float(F(eq["gy"])), float(F(eq["gx"])))
+        out = None
+        try:
+            res = a_star_search(ras, start, goal, barriers=barrier_objects(eq), connectivity=eq["conn"],
+                                snap_start=bool(eq["snaps"]), snap_goal=bool(eq["snapg"]))
+            status, out = "ok", np.asarray(res.data, dtype=np.float64)
+            stack[cur][1] = res
+        except (ValueError, ZeroDivisionError, IndexError, OverflowError) as ex:
+            status = "err:" + type(ex).__name__
+        if dict(ras.attrs) != attrs0:
+            notes.append(f"a_star_search changed the attrs of its input surface: {attrs0} -> {dict(ras.attrs)}")
+        if not (np.array_equal(ys0, ras["y"].data) and np.array_equal(xs0, ras["x"].data)):
+            notes.append("a_star_search changed the coordinates of its input surface")
+        if not np.array_equal(data0, np.asarray(ras.data), equal_nan=True):
+            notes.append("a_star_search changed the data of its input surface")
+        bad = oracle_search(eq, status, out, ras=ras)
+        results.append(dict(status=status, out=out, bad=bad, notes=notes, eq=eq, path=how))
+    return "ok", results
+
+
+def random_op(rng, has_result):
+    k = rng.random()
+    if k < 0.45:
+        def sl():
+            t = rng.random()
+            if t < 0.30:
+                return [None, None, 2]
+            if t < 0.45:
+                return [1, None, 2]
+            if t < 0.55:
+                return [None, None, 3]
+            if t < 0.65:
+                return [None, None, -1]
+            if t < 0.72:
+                return [None, None, -2]
+            if t < 0.80:
+                return [1, -1, 1]
+            return [None, None, 1]
+        y, x = sl(), sl()
+        if y[2] == 1 and x[2] == 1 and y[0] is None and x[0] is None:
+            y = [None, None, 2]
+        return dict(op="stride", y=y, x=x, via=rng.choice(["getitem", "getitem", "isel"]))
+    if k < 0.65:
+        m = rng.choice(SCALES)
+        both = rng.random() < 0.6
+        return dict(op="scale", y=m, x=m if both else rng.choice(["1", "1", rng.choice(SCALES)]))
+    if k < 0.75:
+        return dict(op="shift", y=rng.choice(SHIFTS), x=rng.choice(SHIFTS + ["0"]))
+    if k < 0.83:
+        return dict(op="transpose2")
+    if k < 0.91 or not has_result:
+        return dict(op="copy", deep=rng.random() < 0.5)
+    return dict(op="like-result")
+
+
+def history_case(rng):
+    h, w = rng.randrange(4, 10), rng.randrange(4, 10)
+    barriers = rng.choice([(0,), (0,), (0, 2), ()])
+    data = gen_grid(rng, h, w, rng.choice([0.1, 0.2, 0.3]), nan_p=rng.choice([0, 0, 0.06]))
+    if rng.random() < 0.6:
+        y0, ystep, _, _ = gen_axis(rng)
+        x0, xstep, _, _ = gen_axis(rng)
+    else:
+        y0, ystep = F(rng.choice(["0", "3", "-2"])), F(rng.choice(["1", "-1"]))
+        x0, xstep = F(rng.choice(["0", "10"])), F(1)
+    base = dict(data=[[tok(v) for v in row] for row in data], barriers=list(barriers), y0=ftok(y0), ystep=ftok(ystep),
+                x0=ftok(x0), xstep=ftok(xstep), res=rng.random() < 0.35)
+    cross0 = crossable_exact(base)
+    case = dict(kind="history", base=base, steps=[])
+    stack = [geo_of(base)]
+    searched = [False]
+    cur = 0
+
+    def add_search():
+        g = stack[cur]
+        cross = cross0[np.ix_(g["rows"], g["cols"])]
+        free = [(int(i), int(j)) for i, j in np.argwhere(cross)]
+        hh, ww = cross.shape
+
+        def pick():
+            if free and rng.random() < 0.85:
+                return list(rng.choice(free))
+            return [rng.randrange(hh), rng.randrange(ww)]
+
+        def fr():
+            return [rng.choice(FRACS_SAFE), rng.choice(FRACS_SAFE)]
+        case["steps"].append(dict(op="search", s=pick(), sfr=fr(), g=pick(), gfr=fr(), conn=rng.choice([4, 8]),
+                                  snaps=int(rng.random() < 0.2), snapg=int(rng.random() < 0.2)))
+        searched[cur] = True
+
+    if rng.random() < 0.9:
+        add_search()
+    for _ in range(rng.choice([1, 1, 2, 2, 3])):
+        if len(stack) > 1 and rng.random() < 0.2:
+            cur = rng.randrange(len(stack))
+            case["steps"].append(dict(op="back", to=cur))
+        for _ in range(rng.choice([1, 1, 1, 2])):
+            for _try in range(8):
+                op = random_op(rng, searched[cur])
+                g2 = derive_geo(stack[cur], op)
+                if g2 is not None:
+                    break
+            else:
+                continue
+            case["steps"].append(op)
+            stack.append(g2)
+            searched.append(False)
+            cur = len(stack) - 1
+        for _ in range(rng.choice([1, 1, 2])):
+            add_search()
+    return case
+
+
+def history_verdict(case, results):
+    """-> None | (index of the first failing search, key, text)"""
+    for k, res in enumerate(results):
+        if res["bad"]:
+            earlier = [f"search #{i + 1}: {n}" for i, r_ in enumerate(results[:k + 1]) for n in r_["notes"]]
+            text = (f"search #{k + 1} of the history, on {res['path']} ({len(res['eq']['data'])}x{len(res['eq']['data'][0])} cells, "
+                    f"y = {res['eq']['y0']} + i*{res['eq']['ystep']}, x = {res['eq']['x0']} + j*{res['eq']['xstep']}): {res['bad'][1]}")
+            if earlier:
+                text += "; " + "; ".join(earlier[:4])
+            return k, res["bad"][0], text
+    return None
+
+
+def run_one_history(case):
+    """-> (status, results) with hang protection"""
+    try:
+        list(walk_history(case))
+    except ValueError:
+        return "malformed", []
+    status, results = guarded_map(real_history, [case])[0]
+    return status, (results or [])
+
+
+def truncate_history(case, k):
+    """the history up to and including its (k+1)-th search"""
+    steps, n = [], 0
+    for st in case["steps"]:
+        steps.append(st)
+        if st["op"] == "search":
+            n += 1
+            if n == k + 1:
+                break
+    return dict(case, steps=steps)
+
+
+def minimise_history(case, k):
+    """drop the steps the failure of search #k+1 does not need (a step is dropped when the last search still fails)"""
+    cur = truncate_history(case, k)
+    i = 0
+    while i < len(cur["steps"]) - 1:
+        trial = dict(cur, steps=cur["steps"][:i] + cur["steps"][i + 1:])
+        status, results = run_one_history(trial)
+        if status == "ok" and results and results[-1]["bad"] and all(r_["bad"] is None for r_ in results[:-1]):
+            cur = trial
+        else:
+            i += 1
+    return cur
+
+
+def run_histories(r, n_cases, stop_after=None):
+    cases = [history_case(r.rng) for _ in range(n_cases)]
+    reqs, keep = [], []
+    found = 0
+    for c, (status, results) in zip(cases, guarded_map(real_history, cases)):
+        if status == "skipped":
+            r.tag("skipped-after-hangs")
+            continue
+        ops = [st["op"] for st in c["steps"]]
+        nsearch = ops.count("search")
+        tags = ["stream:derived", "res:" + ("caller-supplied" if c["base"]["res"] else "none"), f"searches:{min(nsearch, 5)}",
+                "rows:" + ("descending" if F(c["base"]["ystep"]) < 0 else "ascending"),
+                "coords:" + ("fractional" if any(F(c["base"][k_]).denominator not in (1, 2, 4) for k_ in ("ystep", "xstep", "y0", "x0")) else "dyadic")]
+        tags += sorted({"derive:" + (o if o != "stride" else "stride-" + st["via"]) for o, st in zip(ops, c["steps"]) if o != "search"})
+        if ops and ops[0] != "search":
+            tags.append("derived-before-any-search")
+        r.case(c, desc=c if not keep else None, nontrivial=True, tags=tags)
+        if status == "hang":
+            r.fail("hang", f"a_star_search did not return within {HANG_S:.0f} s during a history of searches on derived rasters", c)
+            found += 1
+            continue
+        if status != "ok":
+            r.fail("history", f"the history of searches raised {status}", c)
+            found += 1
+            continue
+        r.tag("derived:searches", len(results))
+        v = history_verdict(c, results)
+        if v:
+            k, key, text = v
+            small = minimise_history(c, k)
+            st2, res2 = run_one_history(small)
+            v2 = history_verdict(small, res2) if st2 == "ok" else None
+            if v2:
+                c_rep, key, text = small, v2[1], v2[2]
+                eq = res2[v2[0]]["eq"]
+            else:
+                c_rep, eq = truncate_history(c, k), results[k]["eq"]
+            fs, fout = guarded_search([eq])[0]
+            if oracle_search(eq, fs, fout) is None:
+                key = "history-dependent"
+                text += ("; the same search on a freshly built raster with the same data and coordinates is correct: the result "
+                         "depends on the calls made before")
+            r.fail(key, text, c_rep)
+            found += 1
+            if stop_after is not None and found >= stop_after:
+                break
+            continue
+        for res in results:
+            reqs.append(search_request(res["eq"]))
+            keep.append((c, res))
+    for (c, res), rep in zip(keep, Driver().ask(reqs)):
+        compare_search(r, "derived", res["eq"], res["status"], res["out"], rep, report=c)
+    return found
+
+
 def malformed_cases(rng):
     data = [[1.0, 1.0, 1.0], [1.0, 0.0, 1.0], [1.0, 1.0, 1.0]]
     out = []
@@ -1094,6 +1496,14 @@ def replay_case(r, c):
         return None
     if c["kind"] == "reject":
         return None
+    if c["kind"] == "history":
+        status, results = run_one_history(c)
+        if status == "hang":
+            return "a_star_search did not return during the history"
+        if status != "ok":
+            return None if status == "malformed" else f"the history raised {status}"
+        v = history_verdict(c, results)
+        return v[2] if v else None
     if c["kind"] == "snap":
         got, data = real_snap(c)
         bad = oracle_snap(c, got, data)
@@ -1104,6 +1514,8 @@ def replay_case(r, c):
 
 
 def key_of(c, text):
+    if c["kind"] == "history":
+        return "history-dependent"
     if c["kind"] == "search":
         status, out = guarded_search([c])[0]
         bad = oracle_search(c, status, out)
@@ -1127,6 +1539,14 @@ def run(r, scale=1):
               "walls: long rasters 12x40..20x70 (thorough: to 36x140) with a straight / L / two-armed wall near one end, "
               "free cells at its ends, start behind it, goals in line or on the diagonal with a free end and anywhere, "
               "transposed/mirrored, both directions, conn 8 (80%) / 4, judged by an exact numba Dijkstra only; "
+              "derived: histories of 1-6 searches on rasters derived from one another -- a 4..9 x 4..9 maze (all coordinate "
+              "kinds, with / without a caller-supplied res attribute, which the caller keeps equal to the spacing) is searched, "
+              "then rasters derived by attrs-preserving xarray operations (strided slicing [a::k, b::m] with k, m in "
+              "{1,2,3,-1,-2} via [] or isel, cropping, assign_coords with coordinates rescaled by 30 / 2 / 1/2 / 1000 / -1 / 3 / "
+              "1/4 / -30 on one or both axes or shifted, transpose there and back, copy deep / shallow, a DataArray built from "
+              "the last result's coords / dims / attrs, going back to an earlier raster) are searched; every search is judged by "
+              "the oracle from the derived raster's own coordinates and compared with the model run on the equivalent fresh "
+              "raster; attrs / coords / data of the searched raster are compared before and after each call; "
               "il:<prog>: the six generated ILang programs (Gen/IL.lean) vs the numba functions of pathfinding.py on "
               "direct inputs (values NaN/+-0/+-inf/small; barrier lists to 6 entries; costs at / above the (h+w)^2 bound, "
               "ties, NaN; snap classes lone / none / ring / keep; parent forests, unreached and half-set goals; mazes to 7x7 "
@@ -1163,6 +1583,7 @@ def run(r, scale=1):
     run_searches(r, "small-snap", snap_small)
     run_searches(r, "mazes", [maze_case(r.rng) for _ in range((700 if quick else 15000) * scale)])
     run_searches(r, "dtypes", [dtype_case(r.rng) for _ in range((1500 if quick else 20000) * scale)])
+    run_histories(r, (400 if quick else 6000) * scale, stop_after=3)
     run_walls(r, (25 if quick else 500) * scale, WALL_SIZES_QUICK if quick else WALL_SIZES_QUICK + WALL_SIZES_BIG)
     run_searches(r, "malformed", malformed_cases(r.rng))
     run_rejections(r)
@@ -1173,7 +1594,9 @@ def run(r, scale=1):
     r.assumptions += [
         "costs: theorems over exact arithmetic (any ordered field with s*s = 2); the float run is compared bit for bit with the model executed over IEEE doubles",
         "points are taken within half a cell of the axis extent (outside it the code mirrors about the first centre; not judged)",
-        "regularly spaced, monotone coordinate axes; `res` attribute, when present, equals the spacing",
+        "regularly spaced, monotone coordinate axes; `res` attribute, when present, equals the spacing (in the `derived` "
+        "stream a caller who supplied `res` re-assigns it after an operation that changes the spacing; a raster without a "
+        "caller-supplied `res` is never given one by the harness)",
         "cells up to 2^52 in magnitude (beyond 2^53 numba / NumPy compare mixed 64-bit integers and floats in float64: the "
         "platform's ==, observed, not judged); barrier lists np.array holds exactly (no integer beyond 64 bits, no integer "
         "above 2^53 next to a float)",
@@ -1195,6 +1618,8 @@ def search(r):
     run_searches(r, "exhaustive", exhaustive_cases([(3, 3)], sample=0.04 if quick else 0.2, rng=r.rng))
     run_searches(r, "mazes", [maze_case(r.rng) for _ in range(2500 if quick else 12000)])
     run_searches(r, "dtypes", [dtype_case(r.rng) for _ in range(3000 if quick else 12000)])
+    if not r.failures:
+        run_histories(r, 800 if quick else 8000, stop_after=3)
     if not r.failures:
         # nothing small fails: look for a route that is only slightly too long (needs near-tie alternatives, i.e.
         # long rasters); stops as soon as three failing inputs are known
